@@ -124,8 +124,12 @@ func c05extAd(k c05key, eps []c05key, mainAt int) *Advertisement {
 		// quick tier: the advertisement's own fields have one shape (symbolic
 		// contents); their shapes are varied by the plain-advertisement harness and,
 		// for extended providers, in the thorough tier
-		ad = &Advertisement{Provider: k.id.String(), PreviousID: c05link("previous"), Entries: c05link("entries"),
-			Addresses: []string{verif_Str("address", 1)}, Metadata: verif_Bytes("metadata", 1), ContextID: verif_Bytes("contextID", 1)}
+		ad = &Advertisement{Provider: k.id.String(), Entries: c05link("entries"),
+			Addresses: []string{verif_Str("address", 1)}, Metadata: verif_Bytes("metadata", 1),
+			ContextID: verif_Bytes("contextID", verif_Choose("contextIDLen", 0, 1))} // (chain-level extended providers: no context ID)
+		if verif_Bool("hasPrevious") {
+			ad.PreviousID = c05link("previous")
+		}
 	} else {
 		ad = c05ad(k.id.String())
 	}
